@@ -475,8 +475,11 @@ func withServerNoise(c *fw.Ctx, base string, files []string, f func()) {
 
 // serverOutput returns what the worker's server printed so far (for panic scanning).
 func serverOutput(c *fw.Ctx) string {
-	if v, has := c.Env.State["server_out"]; has {
-		return v.(*bytes.Buffer).String()
+	s := ""
+	for _, k := range []string{"server_out", "server1p_out"} {
+		if v, has := c.Env.State[k]; has {
+			s += v.(*bytes.Buffer).String()
+		}
 	}
-	return ""
+	return s
 }
